@@ -241,6 +241,47 @@ def run(cx, rep):
                    "%s: the two environment branches of a value-kind test differ in %s: a value kind is treated as an opaque leaf in one runtime and merged key by key in the other (typed arrays, Dates lose their kind in parse output)" % (fname, sorted(diff)),
                    mod.loc(n), sample={"test": test, "then": sorted(a), "else": sorted(b)})
     rep.floor("C03.6", "environment-dependent kind tests in deepmerge", n_pred, 1)
+    # ---------------------------------------------------------------- C03.17
+    rep.rule("C03.17", "every kind of object a validator admits as a whole (instanceof K) is an opaque leaf for the deep merge of parse results")
+    # which built-in kinds do validate() methods admit by `input instanceof K`?
+    admitted = {}
+    for cname, c in sorted(fam.classes.items()):
+        m = c.methods.get("validate")
+        if not m or m["function"].get("body") is None:
+            continue
+        ps = ts_common.fn_params(m["function"])
+        inp = ps[1] if len(ps) > 1 else None
+        for x in walk(m["function"]):
+            if x["type"] == "BinaryExpression" and x["operator"] == "instanceof" and s(unparen(x["left"])) == inp:
+                k = s(unparen(x["right"]))
+                if k and k[0].isupper():
+                    admitted.setdefault(k, cname)
+    rep.floor("C03.17", "built-in kinds admitted by instanceof", len(admitted), 2)
+    # the value-kind predicates of the deep merge: functions / arrows inside deepmerge* whose body is one boolean
+    # expression over `typeof value === \"object\"`-style tests
+    preds = []
+    for fname, fnode in mod.functions.items():
+        if not fname.startswith("deepmerge"):
+            continue
+        for x in walk(fnode):
+            if x["type"] in ("FunctionDeclaration", "FunctionExpression", "ArrowFunctionExpression") and x is not fnode:
+                body = x.get("body")
+                if body is None:
+                    continue
+                txt = s(body) if body.get("type") != "BlockStatement" else " ".join(s(st.get("argument") or {}) for st in body["stmts"] if st["type"] == "ReturnStatement")
+                if body.get("type") == "BlockStatement" and not (len(body["stmts"]) == 1 and body["stmts"][0]["type"] == "ReturnStatement"):
+                    continue
+                if txt.count("instanceof") >= 2:
+                    nm = (x.get("identifier") or {}).get("value") or "<arrow#%d>" % len([p_ for p_ in preds if p_[0].startswith("<arrow")])
+                    kinds = {s(unparen(y["right"])) for y in walk(x) if y["type"] == "BinaryExpression" and y["operator"] == "instanceof"}
+                    preds.append((nm, x, kinds))
+    rep.floor("C03.17", "value-kind predicates of the deep merge", len(preds), 1)
+    for nm, node, kinds in preds:
+        missing = sorted(k for k in admitted if k not in kinds)
+        rep.ob("C03.17", "%s/opaque-kinds" % nm, not missing,
+               "the deep merge of parse results decides with %s whether a value is a plain object to be rebuilt key by key; it does not except %s, which %s admits as a whole (`input instanceof %s`): such a value reaching the merge (a union member: one matching branch is enough) is rebuilt as `{}` from its enumerable keys - parse returns an empty object where the input held a %s" % (
+                   nm, ", ".join(missing), ", ".join(admitted[k] for k in missing), missing[0] if missing else "", missing[0] if missing else ""),
+               mod.loc(node), sample={"predicate": nm, "excepts": sorted(kinds), "admitted_by_validators": sorted(admitted)})
     # ---------------------------------------------------------------- C03.7
     rep.rule("C03.7", "index-signature validators are applied to undeclared keys only")
     # In the object class a declared property wins over the index signature: validate / parseAfterValidation /
